@@ -23,6 +23,7 @@ N = int(sl("n", 2))
 EXC = int(sl("exc", 0))
 VER = sl("ver", "1.0")
 TURNS = int(sl("turns", 1))
+MODE = sl("mode", "dialog")  # dialog: user intents + flows; general: no user messages defined (one general LLM call); passthrough: `passthrough: True`, chat-form request
 ORIG = ["ORIGINAL1 hello", "ORIGINAL2 tell me a joke"]
 FIX = sl("fix", {})  # optional partition: {"t0": 1, ...}
 
@@ -66,7 +67,10 @@ define flow greeting
   user express greeting
   bot express greeting
 ''' + "".join(_rail_v1(i) for i in range(1, N + 1))
-YAML_V1 = "enable_rails_exceptions: %s\nrails:\n  input:\n    flows:\n" % ("True" if EXC else "False") + "".join("      - rail %d\n" % i for i in range(1, N + 1))
+if MODE != "dialog":
+    COLANG_V1 = "".join(_rail_v1(i) for i in range(1, N + 1))
+YAML_V1 = ("passthrough: True\n" if MODE == "passthrough" else "") + "enable_rails_exceptions: %s\nrails:\n  input:\n    flows:\n" % ("True" if EXC else "False") \
+    + "".join("      - rail %d\n" % i for i in range(1, N + 1))
 
 
 W = ["zero", "one", "two", "three"]
@@ -142,6 +146,9 @@ else:
 
 SCRIPTS = {0: ["  express greeting"], 1: ["  ask joke", "  bot tell joke", '  "LLM says hi"']}
 EXPECT = {0: "Hello there!", 1: "LLM says hi"}
+if MODE != "dialog":
+    SCRIPTS = {0: ["LLM says hi"], 1: ["LLM says hi"]}
+    EXPECT = {0: "LLM says hi", 1: "LLM says hi"}
 
 
 def _check_turn(t, text_id, verdicts, reply, log, prompts):
@@ -182,7 +189,7 @@ def _check_turn(t, text_id, verdicts, reply, log, prompts):
     for p in prompts:
         if cur != orig and orig in p:
             return "a prompt contains the original text although a rail rewrote it"
-    if not prompts or ('"%s"' % cur) not in prompts[0]:
+    if not prompts or (('"%s"' % cur) if MODE == "dialog" else cur) not in prompts[0]:
         return "the user-intent prompt does not contain the text the rails let through"
     if reply != {"role": "assistant", "content": EXPECT[text_id]}:
         return "unexpected reply %r" % (reply,)
@@ -299,7 +306,7 @@ def refuse_twin(t0: int, a0: int, a1: int, a2: int, t1: int, b0: int, b1: int, b
 SPEC = {
     "property": "C01",
     "functions": FUNCTIONS,
-    "bounds": "Colang 1.0: 2 (thorough 3) input rails with symbolic verdicts accept/reject/rewrite, user text either on a predefined dialog path (1 LLM call) or on the full generation path "
+    "bounds": "Colang 1.0: 2 (thorough 3) input rails with symbolic verdicts accept/reject/rewrite, configurations with dialog flows, without user messages (general prompt) and in passthrough mode with a chat-form request; user text either on a predefined dialog path (1 LLM call) or on the full generation path "
               "(3 LLM calls: intent, next step, bot message), refusal by bot message or by rail exception (enable_rails_exceptions), 1 turn (quick) / 2 turns (thorough, second turn's verdicts and text "
               "independent). Colang 2.x + library/guardrails.co: 2 (thorough 3) rails accept/reject, both refusal styles, 1 turn.",
     "outside": "user text is a concrete marker string (it only meets equality, template rendering and C-level validators): the rewrite clause is a taint check on markers, not a quantification over strings; "
@@ -313,6 +320,10 @@ SPEC = {
         {"fn": "gated_v1", "tiers": ("quick",), "slices": [{"n": 2, "exc": e, "ver": "1.0", "turns": 1, "fix": {"t0": t}} for e in (0, 1) for t in (0, 1)], "tcond": 900, "tpath": 120, "bound": "v1, n=2, 1 turn",
          "smoke": [{"slice": {"n": 3, "exc": 0, "ver": "1.0", "turns": 2}, "args": dict(t0=1, a0=2, a1=0, a2=2, t1=0, b0=0, b1=1, b2=0)},
                    {"slice": {"n": 2, "exc": 1, "ver": "1.0", "turns": 2}, "args": dict(t0=0, a0=0, a1=1, a2=0, t1=1, b0=2, b1=2, b2=0)}]},
+        {"fn": "gated_v1", "tiers": ("quick", "thorough"), "slices": [{"n": 2, "exc": 0, "ver": "1.0", "turns": 1, "mode": m, "fix": {"t0": 0}} for m in ("general", "passthrough")], "tcond": 900, "tpath": 120,
+         "bound": "v1, n=2, no user messages defined (general prompt) / passthrough mode with a chat-form request"},
+        {"fn": "gated_v1", "tiers": ("quick",), "slices": [{"n": 2, "exc": e, "ver": "1.0", "turns": 2, "fix": {"t0": 0, "a0": 1, "t1": t}} for e in (0, 1) for t in (0, 1)], "tcond": 900, "tpath": 120,
+         "bound": "v1, n=2, 2 turns with the first turn rejected by the first rail"},
         {"fn": "gated_v1", "tiers": ("thorough",), "slices": [{"n": 3, "exc": e, "ver": "1.0", "turns": 1, "fix": {"t0": t, "a0": a}} for e in (0, 1) for t in (0, 1) for a in (0, 1, 2)]
                    + [{"n": 2, "exc": e, "ver": "1.0", "turns": 2, "fix": {"t0": t, "a0": a, "t1": t1}} for e in (0, 1) for t in (0, 1) for a in (0, 1, 2) for t1 in (0, 1)],
          "tcond": 3000, "tpath": 180, "bound": "v1, n=2 with 2 turns, n=3 with 1 turn"},
